@@ -4,7 +4,8 @@ C10 — the `.bib` reader is total: located pybtex errors only, confined to the 
 Property theorems only, about the model `Model/BibParse.lean` (`Pybtex.Bib.parseBib`, which the
 correspondence check compares with `pybtex.database.parse_string` in capture and strict mode).
 Helper lemmas: `Lemmas/BibTotal.lean`, `BibNest`, `BibDepth`; `Lemmas/BibLocal.lean` for the positive
-confinement statements at the end (locality of reading, resynchronisation, independence).
+confinement statements (locality of reading, resynchronisation, independence);
+`Lemmas/BibLocate.lean` for the exact position of the syntax errors (`C10_located_exact`, at the end).
 
 `parseBib text strict wanted macros0 roles` returns the final reader state (`db`, the list `errs`
 of problems reported through `handle_error`, the unread `rest`) and the error that left the
@@ -13,6 +14,9 @@ table and person-field list.
 -/
 import PybtexModel.Lemmas.BibDepth
 import PybtexModel.Lemmas.BibLocal
+import PybtexModel.Lemmas.BibLocate
+import PybtexModel.Lemmas.BibBefore
+import PybtexModel.Lemmas.BibBridge
 
 namespace Pybtex.Props
 open Pybtex Pybtex.Bib
@@ -252,10 +256,13 @@ stopped strictly before it — it left a character unread, or it raised a syntax
 error other than `PrematureEOF` is always raised in front of, or just behind, a character of the
 text) —, then on `s.rest ++ c`, for EVERY continuation `c`, `f` returns the same value or the same
 error (same line: lines are computed from the consumed text), makes the same state changes, and
-leaves `c` unread behind what it left unread before. -/
+leaves `c` unread behind what it left unread before.  (`St.appRest c n t` is `t` with `c` appended
+to the unread text `t.rest` — and, for the ghost `errAt` = "the unread text at each reported
+problem", to the entries behind the first `n`, i.e. to those of the problems that `f` itself
+reported: they were reported with `c` unread as well.  Nothing else changes.) -/
 def LocalAt {α : Type} (f : St → Bib.Res α) (s : St) : Prop :=
   ¬ (f s).stop → ((f s).st.rest ≠ [] ∨ (f s).synFail) →
-    ∀ c, f { s with rest := s.rest ++ c } = (f s).mapSt (fun t => { t with rest := t.rest ++ c })
+    ∀ c, f { s with rest := s.rest ++ c } = (f s).mapSt (St.appRest c s.errAt.length)
 
 /-- **Locality of every scanner / parse function** of `LowLevelParser`: `get_token` (= `optional`),
 `required`, `parse_value_part` (strings with their nested braces, numbers, macro names),
@@ -266,15 +273,13 @@ theorem C10_scan_local (s : St) :
     (∀ pats, LocalAt (getToken pats) s) ∧ (∀ pats desc, LocalAt (required pats desc) s) ∧
     LocalAt parseValuePart s ∧ LocalAt parseValue s ∧ LocalAt parseField s ∧
     (∀ paren, LocalAt (parseEntryBody paren) s) ∧ LocalAt parseStringBody s := by
-  refine ⟨fun pats h1 h2 c => ?_, fun pats desc h1 h2 c => ?_, fun h1 h2 c => ?_, fun h1 h2 c => ?_,
-    fun h1 h2 c => ?_, fun paren h1 h2 c => ?_, fun h1 h2 c => ?_⟩
-  · rw [← Tr.app_c, ← Res.mapR_c]; exact getToken_T _ pats s (Or.inl (Or.inr ⟨h1, h2⟩))
-  · rw [← Tr.app_c, ← Res.mapR_c]; exact required_T _ pats desc s (Or.inl (Or.inr ⟨h1, h2⟩))
-  · rw [← Tr.app_c, ← Res.mapR_c]; exact parseValuePart_T _ s (Or.inr ⟨h1, h2⟩)
-  · rw [← Tr.app_c, ← Res.mapR_c]; exact parseValue_T _ s (Or.inr ⟨h1, h2⟩)
-  · rw [← Tr.app_c, ← Res.mapR_c]; exact parseField_T _ s (Or.inr ⟨h1, h2⟩)
-  · rw [← Tr.app_c, ← Res.mapR_c]; exact parseEntryBody_T _ paren s (Or.inr ⟨h1, h2⟩)
-  · rw [← Tr.app_c, ← Res.mapR_c]; exact parseStringBody_T _ s (Or.inr ⟨h1, h2⟩)
+  exact ⟨fun pats => local_of_T _ s (fun T s0 h => getToken_T T pats s0 (Or.inl h)),
+    fun pats desc => local_of_T _ s (fun T s0 h => required_T T pats desc s0 (Or.inl h)),
+    local_of_T _ s (fun T s0 h => parseValuePart_T T s0 h),
+    local_of_T _ s (fun T s0 h => parseValue_T T s0 h),
+    local_of_T _ s (fun T s0 h => parseField_T T s0 h),
+    fun paren => local_of_T _ s (fun T s0 h => parseEntryBody_T T paren s0 h),
+    local_of_T _ s (fun T s0 h => parseStringBody_T T s0 h)⟩
 
 /-- the premises of `LocalAt` occur: `parse_value` on `{a {b} c} # x, u` reads two parts (the
 second an undefined macro, reported) and stops in front of `, u`; on `"a}` it raises "unbalanced
@@ -300,7 +305,10 @@ and does not run into the end of the text: no `PrematureEOF` is among the proble
 round on `s.rest ++ c` has the same outcome: the same command read, the same entry / preamble item
 appended, the same problems with the same line numbers (they are computed from the consumed text),
 the same macro table — and it leaves `c` unread behind what it left unread before.
-(`Step.appRest c` appends `c` to the unread text of the outcome and changes nothing else.)
+(`Step.appRest c n` appends `c` to the unread text of the outcome — and, in the ghost `errAt` that
+records the unread text at each reported problem, to the entries behind the first
+`n = s.errAt.length`, i.e. to those of the problems reported in this round, which were reported with
+`c` unread as well — and changes nothing else.)
 `Lemmas/BibLocal.lean` proves the same for every scanner / parse function below
 (`getToken_T`, `required_T`, `strLoop_T`, `parseValue_T`, …, `parseCommand_T`, `processCmd_T`).
 Unlike for a single token, "stopped before the end of the text" is NOT enough here: see
@@ -309,7 +317,7 @@ theorem C10_round_local (s : St) (c : Str) (hln : 1 ≤ s.ln) (hat : '@' ∈ s.r
     (hE : ∀ e ∈ (Step.st (loopStep s)).errs.drop s.errs.length, e.kind ≠ .prematureEOF)
     (hR : ∀ e, Step.err (loopStep s) = some e →
       e.kind ≠ .prematureEOF ∧ (Step.st (loopStep s)).rest ≠ []) :
-    loopStep { s with rest := s.rest ++ c } = Step.appRest c (loopStep s) :=
+    loopStep { s with rest := s.rest ++ c } = Step.appRest c s.errAt.length (loopStep s) :=
   loopStep_local s c hln hat hE hR
 
 /-- **Resynchronisation.**  Unread text `a` that contains no `@` (what a round that reported a
@@ -326,8 +334,8 @@ theorem C10_resync (s : St) (a c : Str) (ha : '@' ∉ a) :
 /-- `reframe k R n l Pr s`: the state `s` in another context — the line counter is `k` higher (and
 so is the line of every problem reported so far), the problems `R` and the preamble items `Pr` were
 there before everything else, the entries `l` were inserted behind the first `n` entries.  The
-unread text, the macro table, the settings (`strict`, `roles`, wanted-set, citations) and the
-unnamed-entry counter are those of `s`. -/
+unread text, the macro table, the settings (`strict`, `roles`, wanted-set, citations), the
+unnamed-entry counter and the ghost `errAt` are those of `s`. -/
 def reframe (k : Nat) (R : List Err) (n : Nat) (l : List Entry) (Pr : List Str) (s : St) : St :=
   { s with ln := s.ln + k, errs := R ++ s.errs.map (shiftErr k),
            db := { s.db with entries := s.db.entries.take n ++ l ++ s.db.entries.drop n,
@@ -336,8 +344,10 @@ def reframe (k : Nat) (R : List Err) (n : Nat) (l : List Entry) (Pr : List Str) 
 theorem reframe_eq (k : Nat) (R : List Err) (n : Nat) (l : List Entry) (Pr : List Str) (s : St) :
     reframe k R n l Pr s = ({ k := k, R := R, n := n, l := l, Pr := Pr } : Tr).app s := by
   apply St.ext' <;> try rfl
-  show s.rest = s.rest ++ []
-  simp
+  · show s.rest = s.rest ++ []
+    simp
+  · show s.errAt = [] ++ s.errAt.map (· ++ [])
+    simp
 
 /-- **Independence of a round from what was read before.**  A round does not depend on the entries,
 preamble items and problems collected so far, nor on the absolute value of the line counter — with
@@ -345,13 +355,13 @@ the single exception of the repeated-key check of `add_entry`.  Precisely: run t
 and from `reframe k R n l Pr s` (same unread text, macro table, settings, counter; other problems
 and preamble items in front, entries `l` inserted, lines shifted by `k`).  Unless the second run
 reports (behind the problems it started with) or raises a repeated-entry error for a key of one of
-the inserted entries `l` — keys compared as `add_entry` compares them, by `lower` —, both rounds
+the inserted entries `l` — keys compared as `add_entry` compares them, by `keyFold` = `str.lower()` —, both rounds
 have the same outcome: the second one is the `reframe` of the first (same command, same appended
 entry / preamble item, same new problems with lines shifted by `k`, same macro table, same unread
 text). -/
 theorem C10_round_independent {N : Nat} (s : St) (hI : Inv N s) (k : Nat) (R : List Err) (n : Nat)
     (l : List Entry) (Pr : List Str) (hn : n ≤ s.db.entries.length)
-    (hK : ∀ key, l.any (fun e => lower e.key = lower key) = true →
+    (hK : ∀ key, l.any (fun e => keyFold e.key = keyFold key) = true →
       errRep key ∉ (Step.st (loopStep (reframe k R n l Pr s))).errs.drop (R.length + s.errs.length) ∧
       Step.err (loopStep (reframe k R n l Pr s)) ≠ some (errRep key)) :
     loopStep (reframe k R n l Pr s) =
@@ -394,7 +404,7 @@ theorem C10_confined_after {N : Nat} (S S1 : St) (bad post : Str)
     let A := parseLoop ((bad ++ post).length + 1) { S with rest := bad ++ post }
     let B := parseLoop (post.length + 1) (carry S S1 post)
     let δ := countNl (bad ++ post) - countNl post
-    (∀ key, (S1.db.entries.drop S.db.entries.length).any (fun e => lower e.key = lower key) = true →
+    (∀ key, (S1.db.entries.drop S.db.entries.length).any (fun e => keyFold e.key = keyFold key) = true →
         errRep key ∉ A.1.errs.drop S1.errs.length ∧ A.2 ≠ some (errRep key)) →
     A.1.db.entries = S1.db.entries ++ B.1.db.entries.drop S.db.entries.length ∧
     A.1.db.preamble = S1.db.preamble ++ B.1.db.preamble.drop S.db.preamble.length ∧
@@ -418,7 +428,7 @@ theorem C10_confined_after_partial {N : Nat} (S S1 : St) (bad post : Str)
     let A := parseLoop ((bad ++ post).length + 1) { S with rest := bad ++ post }
     let B := parseLoop (post.length + 1) { S with rest := post }
     let δ := countNl (bad ++ post) - countNl post
-    (∀ key, (S1.db.entries.drop S.db.entries.length).any (fun e => lower e.key = lower key) = true →
+    (∀ key, (S1.db.entries.drop S.db.entries.length).any (fun e => keyFold e.key = keyFold key) = true →
         errRep key ∉ A.1.errs.drop S1.errs.length ∧ A.2 ≠ some (errRep key)) →
     A.1.db.entries = S1.db.entries ++ B.1.db.entries.drop S.db.entries.length ∧
     A.1.db.preamble = S1.db.preamble ++ B.1.db.preamble.drop S.db.preamble.length ∧
@@ -452,7 +462,7 @@ theorem C10_confined_after_head (bad post : Str) (strict : Bool) (wanted : Optio
     let A := parseBib (bad ++ post) strict wanted macros0 roles
     let B := parseBib post strict wanted macros0 roles
     let δ := countNl (bad ++ post) - countNl post
-    (∀ key, S1.db.entries.any (fun e => lower e.key = lower key) = true →
+    (∀ key, S1.db.entries.any (fun e => keyFold e.key = keyFold key) = true →
         errRep key ∉ A.1.errs.drop S1.errs.length ∧ A.2 ≠ some (errRep key)) →
     A.1.db.entries = S1.db.entries ++ B.1.db.entries ∧
     A.1.db.preamble = S1.db.preamble ++ B.1.db.preamble ∧
@@ -527,7 +537,7 @@ context (one line further down, a problem and a preamble item in front, the entr
 behind the first entry): the hypotheses hold, the round appends the same entry `z` -/
 theorem C10_round_independent_nonvacuous :
     Inv 2 { exS0 with rest := exPost } ∧ 1 ≤ ({ exS0 with rest := exPost } : St).db.entries.length ∧
-    (∀ key, [exK].any (fun e => lower e.key = lower key) = true →
+    (∀ key, [exK].any (fun e => keyFold e.key = keyFold key) = true →
       errRep key ∉ (Step.st (loopStep (reframe 1 [⟨.prematureEOF, some 1⟩] 1
           [exK]
           ["x".toList] { exS0 with rest := exPost }))).errs.drop
@@ -567,7 +577,7 @@ theorem C10_confined_after_nonvacuous :
     (∀ e ∈ exS1.errs.drop exS0.errs.length, e.kind ≠ .prematureEOF) ∧
     '@' ∉ exS1.rest ∧
     exS1.macros = exS0.macros ∧ exS1.unnamed = exS0.unnamed ∧ exS1.db.wanted = exS0.db.wanted ∧
-    (∀ key, (exS1.db.entries.drop exS0.db.entries.length).any (fun e => lower e.key = lower key) = true →
+    (∀ key, (exS1.db.entries.drop exS0.db.entries.length).any (fun e => keyFold e.key = keyFold key) = true →
       errRep key ∉ (parseLoop ((exBad ++ exPost).length + 1) { exS0 with rest := exBad ++ exPost }).1.errs.drop
         exS1.errs.length ∧
       (parseLoop ((exBad ++ exPost).length + 1) { exS0 with rest := exBad ++ exPost }).2 ≠ some (errRep key)) ∧
@@ -648,5 +658,353 @@ theorem C10_confined_after_head_nonvacuous :
   ⟨Step.eq_inr (by decide +kernel), by decide +kernel, by decide +kernel,
    CIDict.ext' (by decide +kernel) (by decide +kernel), by decide +kernel, by decide +kernel,
    by decide +kernel, by decide +kernel⟩
+
+/-! ### The exact position of the syntax errors
+
+The reader state carries a ghost list `errAt`, filled by `handle_error` and read by nothing: for
+every problem of `errs`, in the same order, the unread text at the moment the problem was handed to
+`handle_error`.  For a `PybtexSyntaxError` this is the `pos` of its `error_context_info`
+(`pos = len(text) - len(unread)`). -/
+
+/-- **Located exactly.**  `C10_located` bounds the line of a syntax error; this says which line it
+is.  `synKind k = true` ⇔ `k` is one of the `PybtexSyntaxError`s `TokenRequired`, `PrematureEOF`,
+"too many nested braces", "unbalanced braces", `UndefinedMacro`.  For every text, mode, wanted-set,
+macro table and person-field list, with `r` = the run of the reader:
+* (a) the ghost `errAt` has one entry per reported problem (so `List.zip r.1.errs r.1.errAt` pairs
+  the `i`-th problem with the unread text `b` at the moment it was reported);
+* (b) for every reported syntax error `e` with its unread text `b`: `b` is a suffix of the text
+  (the error sits at the position `len(text) - len(b)`), and `e.line` is exactly
+  `1 + (line breaks of the text) - (line breaks of b)` = the line of that position;
+* (c) if `e` is `TokenRequired`, `b` is not empty and its first character is not white space: the
+  error is located AT the offending character (not at the white space in front of it).
+  (`PrematureEOF` raised by `get_token` has `b = ""`, but `parse_string` raises `PrematureEOF`
+  with the unread text at the START of the chunk it scanned — see `_nonvacuous` — so for
+  `PrematureEOF` only (b) holds in general.)
+* (d) the same for a syntax error that LEAVES the reader (strict mode), with `b` = the unread text
+  of the final state: the state does not change between the creation of the error and the point
+  where it is raised out of `parse_string`;
+* finally, in terms of the CONSUMED prefix `a` (`text = a ++ b`): the line is `1 +` the line
+  breaks of `a`, unless the position separates a `\r` from its `\n` (`update_lineno` counts
+  `\r\n` once).
+The data errors of the reader (duplicate field, repeated entry, invalid name) carry no line at all:
+`C10_located_data_neg`. -/
+theorem C10_located_exact (text : Str) (strict : Bool) (wanted : Option (List Str))
+    (macros0 : List (Str × Str)) (roles : List Str) :
+    let r := parseBib text strict wanted macros0 roles
+    r.1.errAt.length = r.1.errs.length ∧
+    (∀ p ∈ List.zip r.1.errs r.1.errAt, synKind p.1.kind = true →
+      p.2 <:+ text ∧ p.1.line = some (1 + countNl text - countNl p.2) ∧
+      (∀ d, p.1.kind = .tokenRequired d → p.2 ≠ [] ∧ ∀ c ∈ p.2.head?, isWs c = false)) ∧
+    (∀ e, r.2 = some e → synKind e.kind = true →
+      r.1.rest <:+ text ∧ e.line = some (1 + countNl text - countNl r.1.rest) ∧
+      (∀ d, e.kind = .tokenRequired d → r.1.rest ≠ [] ∧ ∀ c ∈ r.1.rest.head?, isWs c = false)) ∧
+    (∀ a b, text = a ++ b → ¬ (a.getLast? = some '\r' ∧ b.head? = some '\n') →
+      1 + countNl text - countNl b = 1 + countNl a) := by
+  intro r
+  obtain ⟨hL, hE⟩ := parseBib_loc text strict wanted macros0 roles
+  refine ⟨hL.2.2.1, fun p hp hs => (hL.2.2.2 p hp).line_eq hs, fun e he hs => (hE e he).line_eq hs,
+    fun a b hab h => ?_⟩
+  subst hab
+  exact countNl_consumed a b h
+
+/-- the cases of `C10_located_exact` occur.  (1) `@b{j, u = }` on line 2: `TokenRequired` at the
+`}` — the unread text is `}` + line break, one of the two line breaks is still unread, line
+`1 + 2 - 1`.  (2) a text with `\r\n`, continue mode: the undefined macro `x` is reported behind its
+name, the missing `}` at the `y` (not at the blank in front of it), both on line 1; the entry cut
+off by the end of the text gives `PrematureEOF` on line 2 with nothing unread.  (3) strict mode: the
+first of these errors leaves the reader, whose unread text is that of the report in continue mode.
+(4) `PrematureEOF` out of `parse_string`: reported with the whole string body `x y` unread. -/
+theorem C10_located_exact_nonvacuous :
+    ((parseBib "@a{k, t = 1}\n@b{j, u = }\n".toList false none).1.errs
+        = [⟨.tokenRequired "field value", some 2⟩] ∧
+     (parseBib "@a{k, t = 1}\n@b{j, u = }\n".toList false none).1.errAt = ["}\n".toList] ∧
+     1 + countNl "@a{k, t = 1}\n@b{j, u = }\n".toList - countNl "}\n".toList = 2) ∧
+    ((parseBib "@a{k, t = x y}\r\n@b{j".toList false none).1.errs
+        = [⟨.undefinedMacro "x".toList, some 1⟩, ⟨.tokenRequired "'}'", some 1⟩,
+           ⟨.prematureEOF, some 2⟩] ∧
+     (parseBib "@a{k, t = x y}\r\n@b{j".toList false none).1.errAt
+        = [" y}\r\n@b{j".toList, "y}\r\n@b{j".toList, []] ∧
+     1 + countNl "@a{k, t = x y}\r\n@b{j".toList - countNl "y}\r\n@b{j".toList = 1 ∧
+     1 + countNl "@a{k, t = x y}\r\n@b{j".toList - countNl ([] : Str) = 2) ∧
+    ((parseBib "@a{k, t = x y}\r\n@b{j".toList true none).2 = some ⟨.undefinedMacro "x".toList, some 1⟩ ∧
+     (parseBib "@a{k, t = x y}\r\n@b{j".toList true none).1.rest = " y}\r\n@b{j".toList ∧
+     (parseBib "@a{k, t = 1}\n@b{j, u = }\n".toList true none).2
+        = some ⟨.tokenRequired "field value", some 2⟩ ∧
+     (parseBib "@a{k, t = 1}\n@b{j, u = }\n".toList true none).1.rest = "}\n".toList) ∧
+    ((parseBib "@a{k, t = {x y".toList false none).1.errs = [⟨.prematureEOF, some 1⟩] ∧
+     (parseBib "@a{k, t = {x y".toList false none).1.errAt = ["x y".toList]) := by
+  decide +kernel
+
+/-- **The data errors of the reader carry NO line.**  A duplicate field, a repeated entry key and
+a name with too many commas are reported through the same `handle_error`, but as plain
+`BibliographyDataError` / `InvalidNameString` without position: `line = none` (the ghost `errAt`
+shows where the reader stood — behind the whole command — but pybtex does not report it). -/
+theorem C10_located_data_neg :
+    (parseBib "@a{k, t = 1, t = 2}\n@b{K}\n@c{j, author = {a, b, c, d}}".toList false none).1.errs
+      = [⟨.duplicateField "k".toList "t".toList, none⟩, ⟨.repeatedEntry "K".toList, none⟩,
+         ⟨.invalidName "a, b, c, d".toList, none⟩] ∧
+    (parseBib "@a{k, t = 1, t = 2}\n@b{K}\n@c{j, author = {a, b, c, d}}".toList false none).1.errAt
+      = ["\n@b{K}\n@c{j, author = {a, b, c, d}}".toList, "\n@c{j, author = {a, b, c, d}}".toList, []] ∧
+    (parseBib "@a{k, t = 1, t = 2}\n@b{K}\n@c{j, author = {a, b, c, d}}".toList false none).2 = none := by
+  decide +kernel
+
+/-- **Confinement fails whenever the `@` of the NEXT command is read as an identifier** (known
+finding `C10-next-at-read-as-identifier`; `C10_confined_lone_at_neg` is the special case of a lone
+`@`).  `@` is one of `NAME_CHARS`.  (1) The command `@misc` without a body, directly followed by the
+next command: the command name is read as `misc@misc`, so the next entry `z` gets that type and the
+missing body is not even reported.  (2) `@a(k)`: the key pattern of a parenthesised entry takes
+`k)`; the reader then looks for a field name, skips the blank and reads `@b` of the next command as
+that name: `'=' expected`, the entry `z` is lost.  Both malformed commands have balanced braces,
+quotes and parentheses and no `@` of their own.  With a line break behind `@misc` the next command
+is read (3). -/
+theorem C10_confined_next_at_neg :
+    ((parseBib "@misc{p, t = 1}\n@misc@misc{z, v = 2}\n".toList false none).1.db.entries.map
+        (fun e => (e.key, e.origType)) = [("p".toList, "misc".toList), ("z".toList, "misc@misc".toList)] ∧
+     (parseBib "@misc{p, t = 1}\n@misc@misc{z, v = 2}\n".toList false none).1.errs = []) ∧
+    ((parseBib "@a(k) @b{z, v = 2}".toList false none).1.db.entries.map (·.key) = ["k)".toList] ∧
+     (parseBib "@a(k) @b{z, v = 2}".toList false none).1.errs = [⟨.tokenRequired "'='", some 1⟩] ∧
+     (parseBib " @b{z, v = 2}".toList false none).1.db.entries.map (·.key) = ["z".toList]) ∧
+    ((parseBib "@misc{p, t = 1}\n@misc\n@misc{z, v = 2}\n".toList false none).1.db.entries.map
+        (fun e => (e.key, e.origType)) = [("p".toList, "misc".toList), ("z".toList, "misc".toList)] ∧
+     (parseBib "@misc{p, t = 1}\n@misc\n@misc{z, v = 2}\n".toList false none).1.errs
+        = [⟨.tokenRequired "'(' or '{'", some 3⟩]) := by
+  decide +kernel
+
+/-! ### Confinement BEFORE, textually
+
+`C10_prefix_stable` speaks of the rounds of one run.  The statement below is about a decomposition
+of the input TEXT: a complete, well-formed part `render d L` (`Spec/Bib.lean`: an abstract document
+`d` — entries, `@string`, `@preamble`, `@comment`, junk — written under any layout `L`; `WFD` is the
+well-formedness predicate of C01 without the "no repeated key / field name" conditions) followed by
+ANY text `x` — complete commands, garbage, a malformed or unfinished entry. -/
+
+section Before
+open Pybtex.BibSpec
+
+/-- **Nothing that follows alters what was read before** (textual form).  For every document `d`,
+layout `L` with `WFD d L` and EVERY text `x`: in continue mode the entries and the preamble items
+the document denotes (`denoteD (written d L)`: C01) and the problems it gives (`reports`: repeated
+field names and keys) are initial segments of the entries, the preamble and the problems read from
+`render d L ++ x`; in strict mode, for a document that gives nothing to report, the entries and the
+preamble of the document are an initial segment of the database of the state the reader stops in —
+also when it raises on `x`. -/
+theorem C10_confined_before_text (d : ADoc) (L : Layout) (h : WFD d L) (x : Str) :
+    ((denoteD (written d L)).entries <+: (parseBib (render d L ++ x) false none).1.db.entries ∧
+     (denoteD (written d L)).preamble <+: (parseBib (render d L ++ x) false none).1.db.preamble ∧
+     reports (written d L) <+: (parseBib (render d L ++ x) false none).1.errs) ∧
+    (reports (written d L) = [] →
+     (denoteD (written d L)).entries <+: (parseBib (render d L ++ x) true none).1.db.entries ∧
+     (denoteD (written d L)).preamble <+: (parseBib (render d L ++ x) true none).1.db.preamble) :=
+  ⟨BibRT.parseBib_before d L h x, fun hr => BibRT.parseBib_before_strict d L h hr x⟩
+
+/-- instance: `@preamble{{p}}@a{k,t={1},T={2}}` (a repeated field name: `WFD`, not `WF`) followed by
+the malformed continuation `@b{j, u = }` + line break + `@c{`: the entry `k`, the preamble and the
+duplicate-field report come first; the continuation adds two partial entries and two syntax errors -/
+theorem C10_confined_before_text_nonvacuous :
+    let x : Str := "@b{j, u = }\n@c{".toList
+    WFD BibRT.beforeDoc BibRT.beforeLayout ∧ ¬ WF BibRT.beforeDoc BibRT.beforeLayout ∧
+    render BibRT.beforeDoc BibRT.beforeLayout ++ x = "@preamble{{p}}@a{k,t={1},T={2}}\n@b{j, u = }\n@c{".toList ∧
+    (denoteD (written BibRT.beforeDoc BibRT.beforeLayout)).entries.map (fun e => (e.key, e.fields)) =
+      [("k".toList, [("t".toList, "1".toList)])] ∧
+    (denoteD (written BibRT.beforeDoc BibRT.beforeLayout)).preamble = ["p".toList] ∧
+    reports (written BibRT.beforeDoc BibRT.beforeLayout) = [⟨.duplicateField "k".toList "T".toList, none⟩] ∧
+    (parseBib (render BibRT.beforeDoc BibRT.beforeLayout ++ x) false none).1.db.entries.map (fun e => (e.key, e.fields)) =
+      [("k".toList, [("t".toList, "1".toList)]), ("j".toList, []), ("unnamed-1".toList, [])] ∧
+    (parseBib (render BibRT.beforeDoc BibRT.beforeLayout ++ x) false none).1.db.preamble = ["p".toList] ∧
+    (parseBib (render BibRT.beforeDoc BibRT.beforeLayout ++ x) false none).1.errs =
+      [⟨.duplicateField "k".toList "T".toList, none⟩, ⟨.tokenRequired "field value", some 2⟩,
+       ⟨.prematureEOF, some 3⟩] :=
+  BibRT.parseBib_before_example
+
+end Before
+
+/-! ### Confinement after, with a SYNTACTIC premise (`Lemmas/BibBridge.lean`)
+
+`SelfContained bad` (decidable; Boolean form `selfContainedB` in `Spec/BibConfine.lean`): `bad`
+contains exactly one `@`, the first bracket behind it is a `{`, and that brace is closed within
+`bad` by brace counting.  It implies the two operational hypotheses `hE` and `hat` of
+`C10_confined_after_partial`. -/
+
+/-- a malformed command with nested braces, a quote inside braces, a quoted string with a brace
+group that contains a quote, `#`, and a macro name where `,` or `}` is expected; trailing text -/
+def exBad2 : Str := "@misc{k, t = {a {b} \"c}, u = \"d{\"}e\" # x y} trailing\n".toList
+/-- a malformed command whose quoted string is not closed: it runs into the closing brace -/
+def exBad3 : Str := "@misc{k, t = \"abc}\n".toList
+
+/-- **Confinement after a command with a single `@`** (`hat` of `C10_confined_after_partial` from
+syntax).  What a round leaves unread is a suffix of the text behind the `@` it started at
+(`loopStep_suffix`: every function of the reader leaves a suffix of the unread text unread).  So
+if `bad` is `pre ++ '@' :: r` with no `@` in `pre` and none in `r` — exactly one `@` — the round on
+`bad` alone leaves no `@` unread, and `C10_confined_after_partial` holds with this premise in
+place of `hat`.  `C10_confined_neg` is excluded (`bad` contains a second `@`); the lone `@` and
+`@misc` of `C10_confined_lone_at_neg` / `C10_confined_next_at_neg` are not: there it is `hE` that
+fails (the round on `@` alone runs into the end of the text), cf. `C10_confined_syntactic`. -/
+theorem C10_confined_syntactic_at {N : Nat} (S S1 : St) (bad post pre r : Str)
+    (hI : Inv N { S with rest := bad ++ post })
+    (hbad : bad = pre ++ '@' :: r) (hpre : '@' ∉ pre) (hr : '@' ∉ r)
+    (hround : loopStep { S with rest := bad } = .inr S1)
+    (hE : ∀ e ∈ S1.errs.drop S.errs.length, e.kind ≠ .prematureEOF)
+    (hmac : S1.macros = S.macros) (hun : S1.unnamed = S.unnamed) (hw : S1.db.wanted = S.db.wanted) :
+    let A := parseLoop ((bad ++ post).length + 1) { S with rest := bad ++ post }
+    let B := parseLoop (post.length + 1) { S with rest := post }
+    let δ := countNl (bad ++ post) - countNl post
+    (∀ key, (S1.db.entries.drop S.db.entries.length).any (fun e => keyFold e.key = keyFold key) = true →
+        errRep key ∉ A.1.errs.drop S1.errs.length ∧ A.2 ≠ some (errRep key)) →
+    A.1.db.entries = S1.db.entries ++ B.1.db.entries.drop S.db.entries.length ∧
+    A.1.db.preamble = S1.db.preamble ++ B.1.db.preamble.drop S.db.preamble.length ∧
+    A.1.errs = S1.errs ++ (B.1.errs.drop S.errs.length).map (shiftErr δ) ∧
+    A.2 = B.2.map (shiftErr δ) := by
+  intro A B δ hK
+  have hat := hat_of_no_at S S1 bad pre r hbad hpre hr hround
+  have := parseLoop_confined S S1 bad post A (parseLoop (post.length + 1) (carry S S1 post))
+    hI hround hE hat rfl rfl hK
+  simp only [carry_eq S S1 post hmac hun hw] at this
+  exact this
+
+/-- the premises of `C10_confined_syntactic_at` hold for `S = exS0` (the reader after
+`@misc{p, t = 1}`), `bad = @misc{k, t = x y}`, `post = @misc{z, v = 2}` (each with a line break) -/
+theorem C10_confined_syntactic_at_nonvacuous :
+    exBad = [] ++ '@' :: "misc{k, t = x y}\n".toList ∧ '@' ∉ ([] : Str) ∧
+    '@' ∉ "misc{k, t = x y}\n".toList ∧
+    Inv 3 { exS0 with rest := exBad ++ exPost } ∧
+    loopStep { exS0 with rest := exBad } = .inr exS1 ∧
+    (∀ e ∈ exS1.errs.drop exS0.errs.length, e.kind ≠ .prematureEOF) ∧
+    exS1.macros = exS0.macros ∧ exS1.unnamed = exS0.unnamed ∧ exS1.db.wanted = exS0.db.wanted ∧
+    (∀ key, (exS1.db.entries.drop exS0.db.entries.length).any (fun e => keyFold e.key = keyFold key) = true →
+      errRep key ∉ (parseLoop ((exBad ++ exPost).length + 1) { exS0 with rest := exBad ++ exPost }).1.errs.drop
+        exS1.errs.length ∧
+      (parseLoop ((exBad ++ exPost).length + 1) { exS0 with rest := exBad ++ exPost }).2 ≠ some (errRep key)) := by
+  have h0 : ({ exS0 with rest := exBad ++ exPost } : St).errs = [] := by decide +kernel
+  have h1 : (parseLoop ((exBad ++ exPost).length + 1) { exS0 with rest := exBad ++ exPost }).1.errs.drop
+      exS1.errs.length = [] := by decide +kernel
+  have h2 : (parseLoop ((exBad ++ exPost).length + 1) { exS0 with rest := exBad ++ exPost }).2 = none := by
+    decide +kernel
+  have hw1 : exS1.db.wanted = none := by decide +kernel
+  have hw0 : exS0.db.wanted = none := by decide +kernel
+  refine ⟨by decide +kernel, by decide +kernel, by decide +kernel,
+    ⟨by decide +kernel, by decide +kernel, fun e he => ?_⟩,
+    Step.eq_inr (by decide +kernel), by decide +kernel,
+    CIDict.ext' (by decide +kernel) (by decide +kernel), by decide +kernel, by rw [hw1, hw0],
+    fun key _ => ⟨?_, ?_⟩⟩
+  · rw [h0] at he; cases he
+  · rw [h1]; exact List.not_mem_nil
+  · rw [h2]; exact fun h => by cases h
+
+/-- **Confinement after a self-contained command, with a syntactic premise** —
+`C10_confined_after_partial` with BOTH operational hypotheses `hE` (no `PrematureEOF`) and `hat`
+(no `@` left unread) replaced by the decidable predicate `SelfContained bad` on the text of the
+malformed command: `bad` contains exactly one `@`; behind it the first bracket is a `{` (not a
+`(`); and that brace is closed within `bad` by BRACE COUNTING (`openCloses`, `closes`: `{` one
+deeper, `}` one up, a `}` met at depth 0).  Nothing is asked of the quotes, of the command name,
+of key and fields, or of what follows the closing brace.  This is what "its own braces are
+balanced" has to mean for the reader: `PrematureEOF` is raised only by `get_token` on white
+space up to the end of the text and by `parse_string` on a string whose closing delimiter is
+missing, and in front of a text that closes the brace of the command neither happens — a quoted
+string that is not closed runs into that brace and ends in "unbalanced braces" (`exBad3`).
+The negative witnesses are excluded: `C10_confined_neg` (a second `@`), `C10_confined_lone_at_neg`
+and `@misc` of `C10_confined_next_at_neg` (no brace), `@a(k)` there (parenthesised: the key
+pattern of a parenthesised entry takes the `)`), see `C10_confined_syntactic_nonvacuous`.
+Still operational: `hround` (the loop goes on after the round on `bad` alone: always so in
+continue mode unless `Person()` raises, `C10_selfContained_round`), and `hmac`, `hun`, `hw`
+(`bad` hands nothing on), which cannot be dropped (`C10_confined_after_unnamed_neg`,
+`C10_confined_after_wanted_neg`). -/
+theorem C10_confined_syntactic {N : Nat} (S S1 : St) (bad post : Str)
+    (hI : Inv N { S with rest := bad ++ post })
+    (hsc : SelfContained bad)
+    (hround : loopStep { S with rest := bad } = .inr S1)
+    (hmac : S1.macros = S.macros) (hun : S1.unnamed = S.unnamed) (hw : S1.db.wanted = S.db.wanted) :
+    let A := parseLoop ((bad ++ post).length + 1) { S with rest := bad ++ post }
+    let B := parseLoop (post.length + 1) { S with rest := post }
+    let δ := countNl (bad ++ post) - countNl post
+    (∀ key, (S1.db.entries.drop S.db.entries.length).any (fun e => keyFold e.key = keyFold key) = true →
+        errRep key ∉ A.1.errs.drop S1.errs.length ∧ A.2 ≠ some (errRep key)) →
+    A.1.db.entries = S1.db.entries ++ B.1.db.entries.drop S.db.entries.length ∧
+    A.1.db.preamble = S1.db.preamble ++ B.1.db.preamble.drop S.db.preamble.length ∧
+    A.1.errs = S1.errs ++ (B.1.errs.drop S.errs.length).map (shiftErr δ) ∧
+    A.2 = B.2.map (shiftErr δ) :=
+  confined_after_selfContained_partial S S1 bad post hI hsc hround hmac hun hw
+
+/-- **The round on a self-contained command** (from any loop-top state `S`, either mode, any
+outcome): the problems it reports are not `PrematureEOF`, and it leaves no `@` unread.  In
+continue mode the loop goes on after it (`.inr`), unless `Person()` raised its `BibTeXError` for a
+name nested deeper than 100 braces (which is not routed through `handle_error`). -/
+theorem C10_selfContained_round (S : St) (bad : Str) (h : SelfContained bad) :
+    ((∃ l, (Step.st (loopStep { S with rest := bad })).errs = S.errs ++ l ∧
+        ∀ e ∈ l, e.kind ≠ .prematureEOF) ∧
+      '@' ∉ (Step.st (loopStep { S with rest := bad })).rest) ∧
+    (S.strict = false → ∃ S1, loopStep { S with rest := bad } = .inr S1 ∨
+      loopStep { S with rest := bad } = .inl (S1, some ⟨.nameTooDeep, none⟩)) := by
+  refine ⟨loopStep_selfContained S bad h, fun hs => ?_⟩
+  obtain ⟨pre, r, hb, _, _, _⟩ := h
+  exact loopStep_continue { S with rest := bad } hs (by rw [show ({ S with rest := bad } : St).rest = bad from rfl, hb]; simp)
+
+/-- `SelfContained` on the examples, decided by evaluation: it holds for `@misc{k, t = x y}`, for
+a command with nested braces, quotes inside braces and braces inside quotes (`exBad2`), for one
+whose quoted string is not closed (`exBad3`), and with text in front of the `@`; it fails for the
+command of `C10_confined_neg` (an `@` inside), for `@` and `@misc` (no brace), for `@a(k)`
+(parenthesised), for a brace that is not closed, and for a quoted string that opens a brace it
+does not close.  The hypotheses of `C10_confined_syntactic` hold for `S = exS0`, `bad = exBad`,
+`post = exPost`; the conclusion, evaluated: `p, k, z` against `p, z`.  And the rounds on `exBad2`,
+`exBad3` alone, evaluated: one `TokenRequired` resp. "unbalanced braces", no `PrematureEOF`. -/
+theorem C10_confined_syntactic_nonvacuous :
+    (SelfContained exBad ∧ SelfContained exBad2 ∧ SelfContained exBad3 ∧
+     SelfContained "junk @ misc {k}".toList ∧
+     ¬ SelfContained "@misc{k, t = x y @misc{z, u = 1} }".toList ∧
+     ¬ SelfContained "@".toList ∧ ¬ SelfContained "@misc".toList ∧ ¬ SelfContained "@a(k)".toList ∧
+     ¬ SelfContained "@misc{k, t = {a}".toList ∧ ¬ SelfContained "@misc{k, t = \"a{b}\n".toList) ∧
+    (Inv 3 { exS0 with rest := exBad ++ exPost } ∧
+     loopStep { exS0 with rest := exBad } = .inr exS1 ∧
+     exS1.macros = exS0.macros ∧ exS1.unnamed = exS0.unnamed ∧ exS1.db.wanted = exS0.db.wanted ∧
+     (∀ key, (exS1.db.entries.drop exS0.db.entries.length).any (fun e => keyFold e.key = keyFold key) = true →
+       errRep key ∉ (parseLoop ((exBad ++ exPost).length + 1) { exS0 with rest := exBad ++ exPost }).1.errs.drop
+         exS1.errs.length ∧
+       (parseLoop ((exBad ++ exPost).length + 1) { exS0 with rest := exBad ++ exPost }).2 ≠ some (errRep key))) ∧
+    ((parseLoop ((exBad ++ exPost).length + 1) { exS0 with rest := exBad ++ exPost }).1.db.entries.map
+       (fun e => (e.key, e.fields)) = [("p".toList, [("t".toList, "1".toList)]), ("k".toList, [("t".toList, [])]),
+         ("z".toList, [("v".toList, "2".toList)])] ∧
+     (parseLoop (exPost.length + 1) { exS0 with rest := exPost }).1.db.entries.map
+       (fun e => (e.key, e.fields)) = [("p".toList, [("t".toList, "1".toList)]),
+         ("z".toList, [("v".toList, "2".toList)])]) ∧
+    ((Step.st (loopStep { exS0 with rest := exBad2 })).errs
+       = [⟨.undefinedMacro "x".toList, some 1⟩, ⟨.tokenRequired "'}'", some 1⟩] ∧
+     (Step.st (loopStep { exS0 with rest := exBad2 })).rest = "y} trailing\n".toList ∧
+     (Step.st (loopStep { exS0 with rest := exBad3 })).errs = [⟨.unbalancedBraces, some 1⟩] ∧
+     (Step.st (loopStep { exS0 with rest := exBad3 })).rest = "\n".toList) := by
+  have h := C10_confined_syntactic_at_nonvacuous
+  exact ⟨by decide +kernel, ⟨h.2.2.2.1, h.2.2.2.2.1, h.2.2.2.2.2.2.1, h.2.2.2.2.2.2.2.1,
+    h.2.2.2.2.2.2.2.2.1, h.2.2.2.2.2.2.2.2.2⟩, by decide +kernel, by decide +kernel⟩
+
+/-- **The FLAT instance**: `C10_confined_syntactic` for a command of the form
+`@ name { body } tail` — white space `w1`, `w2` around a NAME without `@`, a body that contains
+none of `{ } " @` (no string is ever opened, the final `}` is the only closing brace), white space
+behind the closing brace.  Every such command is `SelfContained` (`FlatCmd.selfContained`). -/
+theorem C10_confined_syntactic_flat {N : Nat} (S S1 : St) (bad post : Str)
+    (hI : Inv N { S with rest := bad ++ post })
+    (hflat : FlatCmd bad)
+    (hround : loopStep { S with rest := bad } = .inr S1)
+    (hmac : S1.macros = S.macros) (hun : S1.unnamed = S.unnamed) (hw : S1.db.wanted = S.db.wanted) :
+    let A := parseLoop ((bad ++ post).length + 1) { S with rest := bad ++ post }
+    let B := parseLoop (post.length + 1) { S with rest := post }
+    let δ := countNl (bad ++ post) - countNl post
+    (∀ key, (S1.db.entries.drop S.db.entries.length).any (fun e => keyFold e.key = keyFold key) = true →
+        errRep key ∉ A.1.errs.drop S1.errs.length ∧ A.2 ≠ some (errRep key)) →
+    A.1.db.entries = S1.db.entries ++ B.1.db.entries.drop S.db.entries.length ∧
+    A.1.db.preamble = S1.db.preamble ++ B.1.db.preamble.drop S.db.preamble.length ∧
+    A.1.errs = S1.errs ++ (B.1.errs.drop S.errs.length).map (shiftErr δ) ∧
+    A.2 = B.2.map (shiftErr δ) :=
+  confined_after_flat S S1 bad post hI hflat hround hmac hun hw
+
+/-- `@misc{k, t = x y}` + line break is flat (`w1 = w2 = ""`, name `misc`, body `k, t = x y`, tail =
+the line break); the four negative witnesses are not (they are not even `SelfContained`); the
+other hypotheses of `C10_confined_syntactic_flat` are those of `C10_confined_syntactic`
+(`C10_confined_syntactic_nonvacuous`) -/
+theorem C10_confined_syntactic_flat_nonvacuous :
+    FlatCmd exBad ∧
+    ¬ FlatCmd "@misc{k, t = x y @misc{z, u = 1} }".toList ∧
+    ¬ FlatCmd "@".toList ∧ ¬ FlatCmd "@misc".toList ∧ ¬ FlatCmd "@a(k)".toList := by
+  have hn := C10_confined_syntactic_nonvacuous.1
+  refine ⟨flatCmd_example,
+    fun h => hn.2.2.2.2.1 h.selfContained, fun h => hn.2.2.2.2.2.1 h.selfContained,
+    fun h => hn.2.2.2.2.2.2.1 h.selfContained, fun h => hn.2.2.2.2.2.2.2.1 h.selfContained⟩
 
 end Pybtex.Props
